@@ -23,10 +23,12 @@ _crc = None
 def crc32c(b):
     global _crc
     if _crc is None:
-        so = os.path.join(ROOT, "build", "libcrcref.so")
+        so = os.path.join(os.environ.get("JLS_BUILD_DIR") or os.path.join(ROOT, "build"), "libcrcref.so")
         if not os.path.exists(so):
             os.makedirs(os.path.dirname(so), exist_ok=True)
-            subprocess.check_call(["gcc", "-O2", "-shared", "-fPIC", os.path.join(ROOT, "harness", "crc_ref.c"), "-o", so])
+            tmp = "%s.%d" % (so, os.getpid())      # several worker processes may get here at once
+            subprocess.check_call(["gcc", "-O2", "-shared", "-fPIC", os.path.join(ROOT, "harness", "crc_ref.c"), "-o", tmp])
+            os.replace(tmp, so)
         lib = ct.CDLL(so)
         lib.crcref.argtypes = [ct.c_char_p, ct.c_size_t]
         lib.crcref.restype = ct.c_uint32
